@@ -33,14 +33,20 @@ Theorem C04_where : forall t mask e m, wfv (vw t) -> shape e (dims (vw t)) -> sh
 Proof. exact where_correct. Qed.
 Print Assumptions C04_where.
 
-(* compound assignment t op= e is executed as t = noalias(t op e): it meets the specification when e does not
-   overlap the target (PARTIAL: for an e that overlaps the target at shifted positions the statement is false of
-   the faithful model and of the library - known finding, see Refuted_C04.v) *)
-Theorem C04_compound_partial : forall o t e m, wfv (vw t) -> inj_view (vw t) -> shape e (dims (vw t)) -> no_noalias e = true ->
-  (let '(lo, hi) := data_range (vw t) in is_aliased e (par t) lo hi = false) ->
+(* compound assignment t op= e (executed as t = noalias(t) op e since the repair 2198a7e): the specification for EVERY
+   right-hand side, overlapping the target or not, at equal or shifted positions.  Before the repair the statement was
+   false of the library and of the faithful model (t = noalias(t op e), kept as assign_op_old) for shifted overlaps *)
+Theorem C04_compound : forall o t e m, wfv (vw t) -> inj_view (vw t) -> shape e (dims (vw t)) -> no_noalias e = true ->
   assign_op o t e m = assign_op_spec o t e m.
 Proof. exact assign_op_correct. Qed.
-Print Assumptions C04_compound_partial.
+Print Assumptions C04_compound.
+(* ... and what the old form could not do, machine-checked: v(1:3) += v(0:2) on 1..5 *)
+Example C04_compound_old_form_refuted_new_form_correct :
+  let v b := mkPV 0 (mkView b [3] [1]) in
+  let m0 : mem := fun _ a => (a + 1)%Z in
+  map (fun a => assign_op_old BAdd (v 1%Z) (ELeaf (v 0%Z)) m0 0%nat a) [0;1;2;3;4]%Z = [1; 3; 6; 10; 5]%Z /\
+  map (fun a => assign_op BAdd (v 1%Z) (ELeaf (v 0%Z)) m0 0%nat a) [0;1;2;3;4]%Z = [1; 3; 5; 7; 5]%Z.
+Proof. vm_compute. split; reflexivity. Qed.
 
 (* non-vacuity: v(1:3) = v(0:2) + v(2:4) on v = 1..5 - overlapping on both sides, copied through a temporary *)
 Example C04_example :
